@@ -635,11 +635,21 @@ func deepEqualJSON(x, y any) bool {
 	}
 }
 
-// emptyJSON: null, [] and {} are what omitempty drops; an absent key equals them.
+// emptyJSON: null, [], {}, 0, false and "" are what omitempty drops when the recorded argument is
+// marshalled again (and what an absent key decodes to); an absent key equals them.
 func emptyJSON(v any) bool {
 	switch t := v.(type) {
 	case nil:
 		return true
+	case json.Number:
+		f, err := t.Float64()
+		return err == nil && f == 0
+	case float64:
+		return t == 0
+	case bool:
+		return !t
+	case string:
+		return t == ""
 	case []any:
 		return len(t) == 0
 	case map[string]any:
